@@ -30,7 +30,7 @@ class Ctx:
         self._rec('HOLDS', rule, instance, where, detail)
 
     # rules that are ABOUT state a change introduces (memos, caches, stale values, shared tables, deferred steps): their evidence names new storage by design
-    _STATE_RULES = ('stale', 'memo', 'cache', 'slot', 'lazy-generator', 'late-binding', 'discarded', 'shared', 'state', 'aliased', 'cursor', '|clock', 'C18.', 'one-shot')
+    _STATE_RULES = ('|stale|', 'memo', '|cache', 'cache-', '|slot', 'lazy-generator', 'late-binding', '|discarded|', '|shared', 'C18.', '|one-shot|', '|aliased|', '|state|', '|clock', 'neg-cache')
 
     def violation(self, rule, instance, where=None, detail=None, key=None):
         # (a rule that followed every callee on the path at hand and found no unread call says so: 'READ: ...' - absence is then a finding, not a blind spot)
@@ -68,6 +68,10 @@ class Ctx:
                 if named:
                     # the evidence names a class or function this tree introduces (left as a call, or as the type of an object): not read to the end
                     self._rec('UNDECIDED', rule, instance, where, 'the evidence goes through %s, which this tree introduces and the rule does not read: %s' % (', '.join(named[:3]), str(detail)[:160]))
+                    return
+                if re.search(r'APPLY\(|havoc<|\((None)[,)]|islice\(None', text) and not read_all:
+                    # a value applied as a function, a value the engine gave up on, a collection it could not trace: the evidence itself is unread
+                    self._rec('UNDECIDED', rule, instance, where, 'the evidence contains a step the engine did not read (a value applied as a function / an untraced value): %s' % str(detail)[:160])
                     return
                 site_mod = str(where).split(':')[0] if where else None
                 d_ = str(detail if detail is not None else '').strip()
